@@ -57,7 +57,14 @@ theorem versionSpan_ver (v : VersionA) (g : Gap) (more : List Tok) :
     cases g with
     | nil => simp [gapToks, versionSpan]
     | cons p g => cases p <;> simp [gapToks, GapPiece.tok, versionSpan]
-  cases he : v.epoch <;> simp [VersionA.toks, VersionA.str, he, versionSpan, hstop]
+  have key : ∀ qs : List Str, versionSpan (colonTail qs ++ (gapToks g ++ (Kind.R_PARENS, [')']) :: more))
+      = .ok ((qs.map fun q => ':' :: q).flatten, gapToks g ++ (Kind.R_PARENS, [')']) :: more) := by
+    intro qs
+    induction qs with
+    | nil => simpa using hstop
+    | cons q qs ih => simp [versionSpan, ih]
+  rw [VersionA.str_eq]
+  simp [VersionA.toks, versionSpan, key]
 
 /-- the version block (its leading gap already eaten) -/
 theorem readVersion_ver (v : VerPart) (more : List Tok) (hv : v.ok = true) :
@@ -71,7 +78,7 @@ theorem readVersion_ver (v : VerPart) (more : List Tok) (hv : v.ok = true) :
   have c := constraintSpan_op v.op (gapToks v.g3 ++ (v.ver.toks ++ (gapToks v.g4 ++ (Kind.R_PARENS, [')']) :: more)))
     (gap_head_not (P := fun k => k ≠ .L_ANGLE ∧ k ≠ .R_ANGLE ∧ k ≠ .EQUAL) _ _ (by decide) (by decide) (by
       intro t ht
-      cases he : v.ver.epoch <;> (simp [VersionA.toks, he] at ht; subst ht; simp)))
+      simp [VersionA.toks] at ht; subst ht; simp))
   have s3 := eatWs_gap v.g3 (v.ver.toks ++ (gapToks v.g4 ++ (Kind.R_PARENS, [')']) :: more)) (verToks_noWs _ _)
   have s4 := eatWs_gap v.g4 ((Kind.R_PARENS, [')']) :: more) (noWs_cons _ _ rfl)
   rw [e1]
@@ -325,12 +332,14 @@ theorem okStr_gap {g : Gap} (h : gapOk g = true) : okStr (gapStr g) = true := by
 theorem okStr_op (op : VC) : okStr op.display = true := by cases op <;> rfl
 
 theorem okStr_version (v : VersionA) (hv : v.ok = true) : okStr v.str = true := by
-  obtain ⟨hb, he⟩ := (VersionA.ok_iff v).1 hv
-  cases hep : v.epoch with
-  | none => simpa [VersionA.str, hep] using okStr_ident hb
-  | some e =>
-    have := okStr_ident (isIdent_of_digits (he e hep).1)
-    simp [VersionA.str, hep, okStr_append, okStr_cons, this, okStr_ident hb, okStr_nil]
+  obtain ⟨hb, hm, _⟩ := (VersionA.ok_iff v).1 hv
+  have key : ∀ qs : List Str, (∀ q ∈ qs, isIdent q = true) → okStr (qs.map fun q => ':' :: q).flatten = true := by
+    intro qs hqs
+    induction qs with
+    | nil => rfl
+    | cons q qs ih =>
+      simp [okStr_append, okStr_cons, okStr_ident (hqs q (by simp)), ih (fun x hx => hqs x (by simp [hx]))]
+  rw [VersionA.str_eq, okStr_append, okStr_ident hb, key _ hm]; rfl
 
 theorem okStr_verPart (p : VerPart) (hp : p.ok = true) : okStr p.str = true := by
   obtain ⟨h1, h2, h3, h4, hv⟩ := (VerPart.ok_iff p).1 hp
